@@ -203,10 +203,31 @@ def gen_case(rng, cid):
         c['m'] = mref * rng.uniform(0.7, 1.0)
     else:
         oew = P['min_mass'] * rng.uniform(0.95, 1.05)
-        c.update(m=mref * rng.uniform(0.75, 1.25), mtow=P['max_mass'] * rng.choice([1.0, 1.0, 0.8]), oew=oew,
-                 mpl=P['max_payload'], lf=rng.uniform(0.3, 1.0),
+        lf = rng.uniform(0.3, 1.0)
+        mtow = P['max_mass'] * rng.choice([1.0, 1.0, 0.8])
+        r = rng.random()
+        if r < 0.35:        # MTOW limit active, or reached only once the reserve is added
+            mtow = (oew + P['max_payload'] * lf) * rng.choice([1.0, 1.01, 1.03, 1.06])
+        c.update(m=mref * rng.uniform(0.75, 1.25), mtow=mtow, oew=oew,
+                 mpl=P['max_payload'], lf=lf,
                  reserve=rng.uniform(0.03, 0.1) if drv == 'fd_fraction' else rng.uniform(0.01, 0.06) * mref)
     return c
+
+
+def gen_twin(rng, c, cid):
+    """a second flight for the SAME model object: byte-identical altitude and cruise-flag arrays, different
+    temperature (hot / cold day) and true airspeed — anything memoised per altitude profile would be stale"""
+    t = json.loads(json.dumps(c))
+    t['id'] = cid
+    dT = rng.choice([28.0, 20.0, -12.0, 35.0])
+    fv = rng.choice([1.0, 0.85, 1.12])
+    for p in t['pts']:
+        p['T'] = p['T'] + dT
+        p['v'] = p['v'] * fv
+        p['gs'] = p['gs'] * fv
+    t['twin_of'] = c['id']
+    t['first_flight'] = json.loads(json.dumps(c))      # replayed first, on the same model object
+    return t
 
 
 # ---------------------------------------------------------------------------------------------
@@ -262,11 +283,21 @@ def run_driver(model, c, n_iter):
     return [float(x) for x in r]
 
 
+_models: dict = {}
+
+
 def impl_case(c, own):
-    """-> dict(result=[...], prev=[...] or None, thrust=[...], sgr=[...]) or dict(error=[cls, msg])"""
+    """-> dict(result=[...], prev=[...] or None, thrust=[...], sgr=[...]) or dict(error=[cls, msg])
+    Cases carrying the same 'model_key' are evaluated on ONE Bada3FuelBurnModel object, one after the other."""
     import numpy as np
     try:
-        model = make_model(c['params'], own)
+        key = (c.get('model_key'), own)
+        if c.get('model_key') is not None and key in _models:
+            model = _models[key]
+        else:
+            model = make_model(c['params'], own)
+            if c.get('model_key') is not None:
+                _models[key] = model
         k = c['n_iter']
         out = {'result': run_driver(model, c, k)}
         fd = c['driver'].startswith('fd')
@@ -344,7 +375,10 @@ def extract(chk: Check):
     except py2coq.Untranslatable as e:
         chk.obligations.append({'name': name, 'ok': False})
         chk.broken(name, str(e))
-        return {}
+        try:            # the state of the two repaired sites is recognised independently of the numeric translation
+            return c19_extract.extract_flags(REPO)
+        except py2coq.Untranslatable:
+            return {}
     chk.obligations.append({'name': name, 'ok': True})
     if chk.coq_compile_gen('C19_Extracted', text) is not None:
         chk.coq_link('C19_Link.v')
@@ -420,15 +454,18 @@ def judge(chk: Check, c, io, tag):
         # point-wise: thrust and specific ground range the library reports for the returned masses
         for j, (pt, m) in enumerate(zip(pts, r)):
             thr, tmax, te = ref_thrust(eng, P, pt, m)
-            if abs(io['thrust'][j] - thr) > 1e-6 * max(abs(thr), abs(tmax), 1.0):
+            if abs(io['thrust'][j] - thr) > 1e-5 * max(abs(thr), abs(tmax), 1.0):
                 bad = (f'calculate_thrust at point {j}: {io["thrust"][j]!r} N, BADA-3 equations give {thr!r} N '
                        f'(total-energy {te!r}, applicable maximum {tmax!r})')
                 break
             f = ref_flow(eng, P, pt, m)
             ws = 0.0 if f == 0.0 else pt['gs'] / f
-            if abs(io['sgr'][j] - ws) > 1e-6 * max(abs(ws), 1.0):
+            # tolerance: AEIC's rounded unit constants (0.514444 m/s per knot, 3.28084 ft per m) differ from the
+            # exact ones used here by up to 9e-7; near-zero thrust amplifies relative differences of the flow
+            amp = max(1.0, min(1e6, abs(tmax) / max(abs(thr), 1e-30))) if eng != 'Piston' else 1.0
+            if abs(io['sgr'][j] - ws) > 1e-5 * amp * max(abs(ws), 1.0):
                 bad = (f'specific ground range at point {j}: {io["sgr"][j]!r} m/kg, ground speed / BADA-3 fuel flow = {ws!r}')
-                if eng == 'Piston' and abs(io['sgr'][j] * 60.0 - ws) <= 1e-6 * max(abs(ws), 1.0):
+                if eng == 'Piston' and abs(io['sgr'][j] * 60.0 - ws) <= 1e-5 * max(abs(ws), 1.0):
                     sig = FB_SIG
                 break
     if bad is None:
@@ -457,9 +494,12 @@ def process(chk: Check, cases, flags):
         exprs.append(coq_case(c, flags))
     vals = chk.coq_eval(HEADER, exprs, shard=12, timeout=1500)
     for c, (io, used), v in zip(cases, impls, vals):
-        chk.case({k: c[k] for k in ('id', 'engine', 'driver', 'n_iter', 'scalar_dx', 'm')} | {'n': len(c['pts'])},
+        chk.case({k: c[k] for k in ('id', 'engine', 'driver', 'n_iter', 'scalar_dx', 'm')} | {'n': len(c['pts']),
+                                                                                                 'T0': c['pts'][0]['T']},
                  'error' not in io and len(c['pts']) > 2)
         chk.count(f'case:{c["engine"]}/{c["driver"]}/n_iter={c["n_iter"]}/{"scalar" if c["scalar_dx"] else "array"}-dx')
+        if 'twin_of' in c:
+            chk.count('second-flight-on-same-model-object')
         if 'error' in io:
             chk.fail(f'{c["driver"]} raised {io["error"][0]}: {io["error"][1]}', {'case': c, 'impl': io, 'with': used})
             continue
@@ -491,7 +531,8 @@ def run(chk: Check):
     chk.rule = ('parameter sets for Jet / Turboprop / Piston (representative coefficients +-15 %, occasionally negative '
                 'C_Tc5), profiles of 2-30 points (cruise, climb, descent, climb-cruise-descent, mixed; ISA and non-ISA '
                 'temperature; cruise flag; head/tail wind), scalar or per-segment distances, the four drivers with '
-                'n_iter in {1,2,3,5,10}; each driver is run for n_iter and n_iter-1; one PRNG stream; '
+                'n_iter in {1,2,3,5,10}; each driver is run for n_iter and n_iter-1; 30 % of the cases are followed by a second '
+                'flight on the SAME model object (identical altitude / cruise arrays, other temperature and airspeed);  one PRNG stream; '
                 'non-trivial = more than two points and the driver returned')
     chk.trusted += ['translator/c19_extract.py + py2coq.NumModule', 'harness/c19.py: correspondence, independent BADA-3 '
                     'equations (user-manual transcription, SI units), trapezoid oracle',
@@ -510,7 +551,14 @@ def run(chk: Check):
                                'backward_update': 'segment lengths reversed with the integrand (repaired)'
                                if flags.get('backward_dx_reversed') else 'segment lengths in forward order (FC19a present)'}
     cases = load_corpus(chk)
-    cases += [gen_case(chk.rng, 1000 + i) for i in range(chk.n(150, 1500))]
+    for i in range(chk.n(150, 1500)):
+        c = gen_case(chk.rng, 1000 + 2 * i)
+        cases.append(c)
+        if chk.rng.random() < 0.3:
+            # one model object, two flights over the same altitude profile under different conditions
+            c['model_key'] = f'm{c["id"]}'
+            t = gen_twin(chk.rng, c, 1001 + 2 * i)
+            cases.append(t)
     process(chk, cases, flags)
 
 
@@ -521,4 +569,5 @@ def replay(chk: Check, rp):
     if not case:
         chk.broken('replay', 'replay file carries no case (broken obligation: re-run the check)')
         return
-    process(chk, [case], flags)
+    first = case.pop('first_flight', None)
+    process(chk, ([first] if first else []) + [case], flags)
